@@ -66,7 +66,11 @@ func New(cfg Config) *Sys {
 			s.tok[n] = t
 		}
 		// the repository's two malicious tokens
-		for n, cc := range map[string]evmtypes.CompiledContract{"steal": erc20contracts.ERC20DirectBalanceManipulationContract, "delayed": erc20contracts.ERC20MaliciousDelayedContract} {
+		for _, mal := range []struct {
+			n  string
+			cc evmtypes.CompiledContract
+		}{{"steal", erc20contracts.ERC20DirectBalanceManipulationContract}, {"delayed", erc20contracts.ERC20MaliciousDelayedContract}} {
+			n, cc := mal.n, mal.cc
 			ctor, err := cc.ABI.Pack("", big.NewInt(10))
 			if err != nil {
 				panic(err)
